@@ -94,11 +94,12 @@ def c05(tier, seed):
 
 def c06(tier, seed):
     w = n(tier, 200, 3000)
-    runs = [dict(cfg=c, traces=w, preds=C06_PREDS) for c in ("pnat", "pnatc", "prst", "p11", "p21n", "pall", "p22", "pnewrst", "pclose", "pfilter")]
+    runs = [dict(cfg=c, traces=w, preds=C06_PREDS) for c in ("pnat", "pnatc", "prst", "p11", "p21n", "pall", "p22", "pnewrst", "pclose", "pfilter", "psame", "psamer")]
     runs[0]["scheds"] = ["nm_findpair"]
     plan = {"runs": runs, "mc": [("pnat", ["UniqueIds", "NoDupPairs", "PairsFromCurrent", "SelListed"], None),
                                  ("pfilter", ["UniqueIds", "NoDupPairs", "PairsFromCurrent", "SelListed", "FilterHolds"], None),
                                  ("prst", ["UniqueIds", "NoDupPairs", "PairsFromCurrent", "SelListed"], None),
+                                 ("psame", ["UniqueIds", "NoDupPairs", "RemotesDeduped", "PairsFromCurrent", "SelListed"], None),
                                  ("pclose", ["UniqueIds", "NoDupPairs", "PairsFromCurrent", "SelListed", "SelWhileConnected"], None, ["Lifecycle", "ReleasedOnFailed"])],
             "assumptions": SESSION_ASSUME}
     return session.run_property("C06", tier, seed, plan)
